@@ -280,7 +280,7 @@ impl Responder {
                 log::info!(
                     "Transaction missed a confirmation: {} (missed conf count: {})",
                     penalty_summary.penalty_txid,
-                    current_height - h
+                    current_height.saturating_sub(h)
                 );
             }
         }
